@@ -28,6 +28,11 @@ func clusterCheck(prop, tier string, plans []plan, need []string, assumptions []
 // properties under this property (signature prefixed with their id): C09
 // demands that C01, C02 and C07 keep holding under membership changes.
 func clusterCheckAlso(prop, tier string, plans []plan, need []string, assumptions []string, also []string) int {
+	return clusterCheckSched(prop, tier, plans, need, assumptions, also, nil)
+}
+
+// clusterCheckSched additionally enumerates schedules of SCHED scenarios.
+func clusterCheckSched(prop, tier string, plans []plan, need []string, assumptions []string, also []string, schedPlans []schedPlan) int {
 	t0 := time.Now()
 	rep := common.NewReport(prop)
 	cov := map[string]any{}
@@ -115,6 +120,13 @@ func clusterCheckAlso(prop, tier string, plans []plan, need []string, assumption
 	cov["state_tags"] = counters
 	cov["rule"] = "every environment-event sequence of the real code within the per-class budgets and the deviation bound of each suite; a state is distinct by its canonical key (library state by reflection, storage, goroutines, network, client history, budgets, monitor memory)"
 	cov["explanation"] = "executions run the real library under the controlled scheduler; there is no separate protocol model, so every execution is a trace validated against the implementation"
+	if len(schedPlans) > 0 {
+		sc, code := runSchedPlans(prop, schedPlans, rep, reported)
+		if code != 0 {
+			return code
+		}
+		cov["schedule_enumeration"] = sc
+	}
 	cov["known_findings_matched"] = len(rep.KnownSeen)
 	ev := &common.Evidence{PropertyID: prop, Tier: tier, Seed: common.Seed(), Level: "model_checking", Coverage: cov,
 		Assumptions: assumptions, WallS: time.Since(t0).Seconds(), Violations: len(rep.Violations)}
@@ -235,3 +247,45 @@ func replay(path string) int {
 }
 
 var replayers = map[string]func(r *common.Replay, path string) int{}
+
+// runClusterPlans explores cluster suites on behalf of a check whose main
+// engine is another one (C10, C11, C14): violations of prop are added to rep,
+// the counters are returned for the evidence file.
+func runClusterPlans(prop string, plans []plan, rep *common.Report, reported map[string]bool) (map[string]any, bool, int) {
+	var states, transitions, execs uint64
+	exhaustive := true
+	var per []map[string]any
+	counters := map[string]uint64{}
+	for _, pl := range plans {
+		s := lookupSuite(pl.suite)
+		if s == nil {
+			fmt.Println("INFRA: unknown suite", pl.suite)
+			return nil, false, 2
+		}
+		res, err := explore.RunSuite(s, explore.Options{Deadline: time.Now().Add(time.Duration(pl.secs) * time.Second), Props: []string{prop}})
+		if err != nil {
+			fmt.Println("INFRA:", err)
+			return nil, false, 2
+		}
+		states += res.Distinct
+		transitions += res.Stats.Transitions
+		execs += res.Stats.Executions
+		exhaustive = exhaustive && res.Exhaustive
+		for k, v := range res.Stats.Counters {
+			counters[k] += v
+		}
+		per = append(per, map[string]any{"suite": s.Name, "budget": s.Budget.String(), "states": res.Distinct, "transitions": res.Stats.Transitions, "exhaustive": res.Exhaustive, "wall_s": res.Wall})
+		for _, f := range res.Founds {
+			if f.V.Property != prop || reported[f.V.Signature] {
+				continue
+			}
+			reported[f.V.Signature] = true
+			if !confirm(s, f) {
+				fmt.Printf("INFRA: violation %s did not reproduce identically on 5 re-executions\n", f.V.Signature)
+				return nil, false, 2
+			}
+			rep.Add(f.V, &common.Replay{Engine: "cluster", Suite: s.Name, Events: explore.EventsJSON(f.Events), Trace: eventStrings(f.Events)})
+		}
+	}
+	return map[string]any{"cluster_states": states, "cluster_transitions": transitions, "cluster_executions": execs, "cluster_suites": per, "cluster_state_tags": counters}, exhaustive, 0
+}
